@@ -1,7 +1,8 @@
 (* C11 -- Ill-formed netlists are rejected when they are built or checked.
    Statements only; proofs in Proofs/C11/*.v.  The model (Model/Build.v) is hand-written from py4hw/base.py and
-   py4hw/debug.py and is run against the real classes on every check (py/props/c11.py): same operation sequences,
-   compared after every call on raise/no-raise and on every attribute (children, _wires, port lists, source, sinks).
+   py4hw/debug.py (as of /repo commits a702577 and 0845e1f) and is run against the real classes on every check
+   (py/props/c11.py): same operation sequences, compared after every call on raise/no-raise and on every attribute
+   (children, _wires, port lists, source, sinks).
    `run ops` = the state after executing ANY list of construction calls from the empty heap, legal or not. *)
 From Coq Require Import ZArith List Bool Arith Lia.
 From V Require Import Model.Build Spec.C11 Proofs.C11.Registered Proofs.C11.Integrity Proofs.C11.Main.
@@ -20,32 +21,33 @@ Proof. exact unique_children_run. Qed.
 (* names in a _wires table are distinct; the wire stored under (p, n) has parent p and name n *)
 Theorem C11_unique_wires : forall ops, unique_wires (run ops).
 Proof. exact unique_wires_run. Qed.
-
+(* ... and conversely EVERY created wire is stored in its parent's table under its own name, whatever calls
+   (failed renames / reparents included) were made: no wire is ever left outside the tables *)
+Theorem C11_wires_registered : forall ops, all_registered (run ops).
+Proof. exact wires_registered_run. Qed.
 (* wire.sinks is exactly the list of in / inout ports of PRIMITIVE blocks attached to the wire, in creation order *)
 Theorem C11_sinks_exact : forall ops, sinks_exact (run ops).
 Proof. exact sinks_exact_run. Qed.
 
 (* ---- the call that would create the conflict raises ------------------------------------------------------ *)
-(* guards: the call names existing objects; for rename/reparent the moved wire is currently registered under its
-   own (parent, name) -- false only after an earlier rename/reparent of that wire raised (see the refutations) *)
+(* only guard: the call names existing objects (the caller holds references to them) *)
 Theorem C11_conflict_raises : forall ops o c,
-  valid_op (run ops) o -> subject_registered (run ops) o ->
-  conflict_of (run ops) o = Some c -> snd (step (run ops) o) = Raise c.
+  valid_op (run ops) o -> conflict_of (run ops) o = Some c -> snd (step (run ops) o) = Raise c.
 Proof. exact conflict_raises_run. Qed.
 
-(* ---- and the earlier driver / child / wire stays in place (for EVERY call, raising or not) ----------------- *)
+(* ---- EVERY raising call leaves the netlist untouched, and the item its error names is registered ---------- *)
+Theorem C11_raise_unchanged : forall ops o s' c,
+  step (run ops) o = (s', Raise c) -> s' = run ops /\ names_existing (run ops) c.
+Proof. exact raise_unchanged_run. Qed.
+
+(* ---- the earlier driver / child / wire stays in place, for EVERY call (raising or not): every registered child,
+   every registered source, and every _wires entry other than the moved wire's own is unchanged ----------------- *)
 Theorem C11_earlier_stays : forall ops o,
+  valid_op (run ops) o ->
   children_stay (run ops) (exec (run ops) o) /\
   drivers_stay (run ops) (exec (run ops) o) /\
-  (subject_registered (run ops) o -> wires_stay (run ops) o (exec (run ops) o)).
+  wires_stay (run ops) o (exec (run ops) o).
 Proof. exact earlier_stays_run. Qed.
-
-(* what a raising call leaves behind: the item named by the error is the one registered before AND after the call
-   (CWire: and it is not the wire being moved); calls other than rename/reparent leave the state untouched.
-   (A raising rename/reparent has already deleted the moved wire from its old table: mirrored in the model.) *)
-Theorem C11_raise_keeps_earlier : forall ops o s' c,
-  step (run ops) o = (s', Raise c) -> kept (run ops) o s' c /\ (subject o = None -> s' = run ops).
-Proof. exact raise_keeps_run. Qed.
 
 (* once registered, a driver / a child is never replaced by any later call *)
 Theorem C11_driver_permanent : forall ops1 ops2 w q,
@@ -56,31 +58,10 @@ Theorem C11_child_permanent : forall ops1 ops2 p n c,
   tget (ochildren (run (ops1 ++ ops2)) p) n = Some c.
 Proof. exact child_permanent_run. Qed.
 
-(* as long as no rename/reparent has raised, every wire is registered under its own name, hence the two guarded
-   theorems above hold without the registration guard *)
-Theorem C11_wires_registered : forall ops, moves_succeed init ops -> all_registered (run ops).
-Proof. exact wires_registered_run. Qed.
-Theorem C11_conflict_rule_before_failed_move : forall ops o,
-  moves_succeed init ops -> valid_op (run ops) o ->
-  (forall c, conflict_of (run ops) o = Some c -> snd (step (run ops) o) = Raise c) /\
-  wires_stay (run ops) o (exec (run ops) o).
-Proof. exact conflict_rule_clean_run. Qed.
-
-(* ---- refutations of the unguarded clauses (witnesses replayed on the real classes; known finding F1) ------ *)
-(* after a.rename('b') raised, a.rename('c') removes wire b -- which no call ever touched -- from the table *)
-Theorem C11_wires_stay_refuted :
-  exists ops o, valid_op (run ops) o /\ ~ wires_stay (run ops) o (exec (run ops) o).
-Proof. exact wires_stay_refuted. Qed.
-(* ... and a.rename('b') now succeeds and REPLACES wire b *)
-Theorem C11_conflict_raises_refuted :
-  exists ops o c, valid_op (run ops) o /\ conflict_of (run ops) o = Some c /\ snd (step (run ops) o) = Ok /\
-                  tget (owires (run ops) 0) 2%Z = Some 1 /\ tget (owires (exec (run ops) o) 0) 2%Z = Some 0.
-Proof. exact conflict_raises_refuted. Qed.
-
 (* ---- checkIntegrity ------------------------------------------------------------------------------------- *)
 (* for ANY hierarchy whose children tables form a forest (e.g. one read off real py4hw objects): the check
    terminates and raises exactly when some block below h has an in- or out-port (inOutPorts are not visited) whose
-   wire has no source, or an in-port whose wire's source port is in neither inPorts nor outPorts of its block *)
+   wire has no source, or an in-port whose wire's source port is in none of inPorts/outPorts/inOutPorts of its block *)
 Theorem C11_integrity_iff : forall s h, tree_ok s -> h < nobj s ->
   checkIntegrity s h <> IFuel /\
   (checkIntegrity s h = IRaise <->
@@ -91,75 +72,80 @@ Proof. exact integrity_iff. Qed.
 Theorem C11_tree_ok_constructed : forall ops, tree_ok (run ops).
 Proof. exact tree_ok_run. Qed.
 
-(* for every constructed netlist none of whose wires is driven by an InOutPort: raises iff a visited port's wire
-   is undriven, accepts iff all visited port wires are driven *)
+(* for EVERY constructed netlist (inout drivers included): the check raises iff some in- or out-port of a block of
+   the hierarchy is attached to a wire without source, and accepts iff all those port wires are driven.
+   "Visited" ports are the inPorts and outPorts of the blocks reachable through children tables; a port always has
+   an (ordinary) wire in the model. *)
 Theorem C11_integrity_iff_constructed : forall ops h,
-  (forall w sp, w < nwire (run ops) -> wsource (run ops) w = Some sp -> pkind (run ops) sp = POut) ->
   h < nobj (run ops) ->
   (checkIntegrity (run ops) h = IRaise <-> exists q, visited (run ops) h q /\ undriven (run ops) q) /\
   (checkIntegrity (run ops) h = IOk <-> forall q, visited (run ops) h q -> ~ undriven (run ops) q).
 Proof. exact integrity_constructed. Qed.
 
-(* without that guard the clause is false (known finding F2): every wire has a source, the check raises *)
-Theorem C11_integrity_inout_refuted :
-  exists ops h, h < nobj (run ops) /\ checkIntegrity (run ops) h = IRaise /\
-                forall w, w < nwire (run ops) -> wsource (run ops) w <> None.
-Proof. exact integrity_inout_refuted. Qed.
-
 (* ---- the executable predicates the check evaluates on REAL states are the declarative ones -------------------- *)
 Theorem C11_checked_predicates_exact : forall s,
   (single_driver_b s = true <-> single_driver s) /\ (unique_children_b s = true <-> unique_children s) /\
-  (unique_wires_b s = true <-> unique_wires s) /\ (sinks_exact_b s = true <-> sinks_exact s).
+  (unique_wires_b s = true <-> unique_wires s) /\ (sinks_exact_b s = true <-> sinks_exact s) /\
+  (all_registered_b s = true <-> all_registered s).
 Proof. exact checked_predicates_exact. Qed.
 Theorem C11_checked_frames_exact : forall s o s', unique_children s -> unique_wires s ->
   (children_stay_b s s' = true <-> children_stay s s') /\ (drivers_stay_b s s' = true <-> drivers_stay s s') /\
-  (wires_stay_b s o s' = true <-> wires_stay s o s') /\ (subject_registered_b s o = true <-> subject_registered s o).
+  (wires_stay_b s o s' = true <-> wires_stay s o s').
 Proof. exact checked_frames_exact. Qed.
 Theorem C11_checked_integrity_exact : forall s h, unique_children s -> h < nobj s ->
   (undriven_port_b s h = true <-> exists q, visited s h q /\ undriven s q).
 Proof. exact checked_integrity_exact. Qed.
 
+(* ---- the witnesses of the two repaired defects, on the repaired model (they were `_refuted` theorems) -------- *)
+(* a.rename('b') raises and changes nothing; a.rename('c') then moves only a (b stays); a.rename('b') still raises *)
+Example C11_failed_rename_harmless :
+  let s0 := run [NewLogic None 0%Z false; NewWire 0 1%Z 1%Z; NewWire 0 2%Z 1%Z] in
+  let s := run ops_failed_rename in
+  snd (step s0 (Rename 0 2%Z)) = Raise (CWire 0 2%Z) /\
+  dump s = dump s0 /\
+  snd (step s (Rename 0 3%Z)) = Ok /\
+  tget (owires (exec s (Rename 0 3%Z)) 0) 2%Z = Some 1 /\ tget (owires (exec s (Rename 0 3%Z)) 0) 3%Z = Some 0 /\
+  snd (step s (Rename 0 2%Z)) = Raise (CWire 0 2%Z).
+Proof. exact failed_rename_harmless. Qed.
+(* a wire driven by an InOutPort of a primitive block and read by an in-port is accepted *)
+Example C11_inout_driver_accepted : checkIntegrity (run ops_inout) 0 = IOk.
+Proof. exact inout_driver_accepted. Qed.
+(* scope of "visited": an InOutPort of a STRUCTURAL block on an undriven wire is not looked at (accepted) *)
+Example C11_inout_port_not_visited :
+  checkIntegrity (run ops_inout_unvisited) 0 = IOk /\ wsource (run ops_inout_unvisited) 0 = None /\
+  oinout (run ops_inout_unvisited) 1 = [0] /\ pwire (run ops_inout_unvisited) 0 = 0.
+Proof. exact inout_port_not_visited. Qed.
+
 (* ---- non-vacuity of the hypotheses ---------------------------------------------------------------------- *)
 Definition ex_ops : list op :=
   [NewLogic None 0%Z false; NewWire 0 0%Z 8%Z; NewWire 0 1%Z 8%Z; NewLogic (Some 0) 1%Z true; NewLogic (Some 0) 2%Z true;
    AddOut 1 0%Z 0; AddIn 2 0%Z 0; AddOut 2 1%Z 1].
-(* a second driver, a duplicate child, a duplicate wire and a colliding rename are conflicts, the guards hold, and the model raises *)
+(* a second driver, a duplicate child, a duplicate wire and colliding rename / reparentAndRename are conflicts, the
+   guard holds, and the model raises *)
 Example C11_conflicts_nonvacuous :
-  Forall (fun '(o, c) => valid_op (run ex_ops) o /\ subject_registered (run ex_ops) o /\
-                         conflict_of (run ex_ops) o = Some c /\ snd (step (run ex_ops) o) = Raise c)
+  Forall (fun '(o, c) => valid_op (run ex_ops) o /\ conflict_of (run ex_ops) o = Some c /\ snd (step (run ex_ops) o) = Raise c)
          [(AddOut 2 5%Z 0, CDriver 0); (NewLogic (Some 0) 2%Z false, CChild 0 2%Z); (NewWire 0 1%Z 1%Z, CWire 0 1%Z);
-          (Rename 0 1%Z, CWire 0 1%Z); (AddInOut 1 0%Z 1, CDriver 1)].
+          (Rename 0 1%Z, CWire 0 1%Z); (AddInOut 1 0%Z 1, CDriver 1); (ReparentAndRename 1 0 0%Z, CWire 0 0%Z)].
 Proof. vm_compute. repeat constructor; lia. Qed.
-Example C11_moves_succeed_nonvacuous : moves_succeed init (ex_ops ++ [Rename 0 7%Z; Reparent 1 2; ReparentAndRename 0 1 1%Z]).
-Proof. vm_compute. repeat split; intros; reflexivity. Qed.
 Example C11_integrity_nonvacuous :
-  (forall w sp, w < nwire (run ex_ops) -> wsource (run ex_ops) w = Some sp -> pkind (run ex_ops) sp = POut) /\
   checkIntegrity (run ex_ops) 0 = IOk /\
   checkIntegrity (run (ex_ops ++ [NewWire 0 2%Z 1%Z; AddIn 1 1%Z 2])) 0 = IRaise.
-Proof.
-  split; [|vm_compute; auto].
-  intros w sp Hw. assert (E : w = 0 \/ w = 1) by (vm_compute in Hw; lia).
-  destruct E; subst w; vm_compute; intros E; inversion E; reflexivity.
-Qed.
+Proof. vm_compute; auto. Qed.
 
 Print Assumptions C11_single_driver.
 Print Assumptions C11_at_most_one_driver.
 Print Assumptions C11_unique_children.
 Print Assumptions C11_unique_wires.
+Print Assumptions C11_wires_registered.
 Print Assumptions C11_sinks_exact.
 Print Assumptions C11_conflict_raises.
+Print Assumptions C11_raise_unchanged.
 Print Assumptions C11_earlier_stays.
-Print Assumptions C11_raise_keeps_earlier.
 Print Assumptions C11_driver_permanent.
 Print Assumptions C11_child_permanent.
-Print Assumptions C11_wires_registered.
-Print Assumptions C11_conflict_rule_before_failed_move.
-Print Assumptions C11_wires_stay_refuted.
-Print Assumptions C11_conflict_raises_refuted.
 Print Assumptions C11_integrity_iff.
 Print Assumptions C11_tree_ok_constructed.
 Print Assumptions C11_integrity_iff_constructed.
-Print Assumptions C11_integrity_inout_refuted.
 Print Assumptions C11_checked_predicates_exact.
 Print Assumptions C11_checked_frames_exact.
 Print Assumptions C11_checked_integrity_exact.
